@@ -210,7 +210,7 @@ def rule_gj(chk):
                     # resolve `dnr = float(m[...])`
                     if isinstance(den, ast.Name):
                         dname = den.id
-                        for a in ast.walk(inner):
+                        for a in ast.walk(loop):          # (read in the row loop, or hoisted in front of it: the pivot row is not touched while the rows below are cleared)
                             if isinstance(a, ast.Assign) and U(a.targets[0]) == dname:
                                 den = a.value
                     if isinstance(den, ast.Call) and M.call_name(den) == 'float':
@@ -430,7 +430,7 @@ def rule_gj(chk):
                        detail_ok='columns %s .. %s' % (cmin, cmax))
     chk.floor('back-substitution column loops', col_loops, 2)
     # --- near-zero pivot test dominates the division
-    g = C.build_cfg(inner.body)
+    g = C.build_cfg(loop.body)          # the whole pass for one pivot: the test may stand in the row loop or, hoisted, in front of it
     tests = [n.id for n in g.nodes if n.kind == 'test' and isinstance(n.ast, ast.If) and 'abs(' in U(n.ast.test)
              and any(isinstance(b, ast.Return) for b in n.ast.body)]
     divn = [n.id for n in g.nodes if n.ast is not None and isinstance(n.ast, ast.Assign)
@@ -852,6 +852,20 @@ def rule_row_operations(chk):
                         stores.append((R, C, rat(st.value), list(stack), st, dict((u_, scal[u_][1]) for u_ in used)))
                     except Skip as ex:
                         stores.append((None, None, str(ex), list(stack), st, {}))
+            elif isinstance(st, ast.AugAssign) and isinstance(st.op, (ast.Add, ast.Sub, ast.Mult, ast.Div)) and isinstance(st.target, ast.Subscript) and \
+                    isinstance(st.target.value, ast.Name) and st.target.value.id == params[0]:
+                # m[i] op= e is m[i] = m[i] op e
+                try:
+                    R, C = rc(st.target.slice)
+                    tl = ast.Subscript(value=st.target.value, slice=st.target.slice, ctx=ast.Load())
+                    full = ast.BinOp(left=tl, op=st.op, right=st.value)
+                    used = set(x.id for x in ast.walk(st.value) if isinstance(x, ast.Name) and x.id in scal)
+                    stores.append((R, C, rat(full), list(stack), st, dict((u_, scal[u_][1]) for u_ in used)))
+                except Skip as ex:
+                    stores.append((None, None, str(ex), list(stack), st, {}))
+            elif isinstance(st, ast.AugAssign) and isinstance(st.target, ast.Name):
+                scal.pop(st.target.id, None)
+                env.pop(st.target.id, None)
 
     walk(M.docstring_stripped(fn.body), [])
     n_ops = 0
@@ -961,6 +975,12 @@ def rule_row_operations(chk):
         if g_ is None or not any(x is r_ for b_ in g_.body for x in ast.walk(b_)):
             continue
         test = inl_(g_.test, defs_)
+        if isinstance(test, ast.BoolOp) and isinstance(test.op, ast.And):
+            # a conjunct on the indices alone (`rrcol + 1 < eqns`: "there is a row below to clear") only narrows when the test applies; what it says about the entry is the rest
+            keep_ = [v_ for v_ in test.values if any(isinstance(x, ast.Subscript) for x in ast.walk(v_)) or not
+                     set(x.id for x in ast.walk(v_) if isinstance(x, ast.Name)) <= (set(env) | set(l_.target.id for l_ in ast.walk(fn) if isinstance(l_, ast.For) and isinstance(l_.target, ast.Name)) | set(M.arg_names(fn)))]
+            if keep_ and len(keep_) < len(test.values):
+                test = keep_[0] if len(keep_) == 1 else ast.BoolOp(op=ast.And(), values=keep_)
         subs_ = [x for x in ast.walk(test) if isinstance(x, ast.Subscript) and isinstance(x.value, ast.Name) and x.value.id == params[0]]
         keys = sorted(set(U(x) for x in subs_))
         who = 'gj_solve@%d' % g_.lineno
